@@ -21,7 +21,7 @@ MANIFEST = {
             "Peer selection, helper arithmetic and the handlers are tied to the Go code by running both on all small multisets of "
             "peer tips / random peer sets and on random responder chains (cache sizes 1..515, removed blocks, heights near 2^32, "
             "malformed requests); every implementation answer is also checked against the declarative oracle.",
-    "note": "Five genuine defects repaired in /repo (most-frequent-ID loop never updated max; uint32 overflow of height+103 in the "
+    "note": "Six genuine defects repaired (the sixth: block sync banned the sender instead of the serving peer); five of them: in /repo (most-frequent-ID loop never updated max; uint32 overflow of height+103 in the "
             "GetBlocksFromID handler; fast-sync restore overwrote the saved original blocks; downloader hung / grew without bound on "
             "empty or repeated answers; stale temp blocks broke a later fast-sync restore). The convergence model is tied to fast_sync.go / block_sync.go / download.go by "
             "running the real Syncer of one node against a scripted peer over loopback libp2p (honest, truncated, corrupted, lying "
@@ -95,9 +95,11 @@ def sync_term(r):
     pairs = lambda l: clist(l, lambda x: "(%d, %d)" % tuple(x))
     obs = "(%s, %s, %s, %s, %s, %s)" % (clist(r["after"]), cbool(r["banned"]), cbool(bool(r["err"])), pairs(r["tempafter"]),
                                        cbool(r["lowdeleted"]), cbool(r["dbequal"]))
-    return "(%s, %s, %s, %d, %s, %s, %d, %s, %d, %d, %s)" % (
-        cbool(r["kind"] == "fast"), clist(r["before"]), pairs(r.get("tempbefore") or []), r["finalized"], common, clist(r["delivered"]), e, pairs(r["links"]),
-        r["targeth"], 2 * r["spec"]["n"], obs)
+    truth = "(%s, %s, %d, %s, %s)" % (cbool(r["honest"]), cbool(r["better"]), r["forkh"], clist(r["peerchain"]),
+                                      cbool(not r["spec"].get("sender")))
+    return "(%d, %d, %d, (%d)%%Z, %s, %s, %d, %s, %s, %d, %s, %s, %s)" % (
+        r["ownh"], r["blockh"], r["spec"]["n"], r["slotgap"], clist(r["before"]), pairs(r.get("tempbefore") or []), r["finalized"],
+        common, clist(r["delivered"]), e, pairs(r["links"]), truth, obs)
 
 
 def add_failure(ck, kind, code, what_spec, what_model, case):
@@ -162,7 +164,8 @@ def evaluate(ck, recs):
             sp = r["spec"]
             ck.nontrivial(("sync", r.get("phase", 1), r["kind"], sp["n"], sp["prefix"], sp["own"], sp["peer"], sp["full"], sp["hcb"],
                            sp["corrupt"], sp["corruptkind"] if sp["corrupt"] >= 0 else "", sp["errafter"], sp.get("stall", ""),
-                           sp.get("own2", 0), sp.get("corrupt2", -1), sp.get("errafter2", -1), bool(r.get("tempbefore"))))
+                           sp.get("own2", 0), sp.get("corrupt2", -1), sp.get("errafter2", -1), bool(r.get("tempbefore")), bool(sp.get("sender")),
+                           sp.get("sendershare", 0), sp.get("forkmode", ""), bool(sp.get("recent")), r["better"], r["ownh"] > r["blockh"]))
             if code != 0:
                 add_failure(ck, "sync", code,
                             "sync run: node did not end on the honest better peer's chain / failed fast sync did not restore the "
@@ -231,7 +234,7 @@ def run(ck):
     recs += r1
     evaluate(ck, recs)
     for r in [x for x in r1 if x["k"] == "sync"][1:2]:
-        ck.sample(dict(r, links=r["links"][:4]))
+        ck.sample(dict(r, links=r["links"][:4], peerchain=r["peerchain"][:6]))
     for k in ("best", "chain", "gap"):
         for r in [x for x in r1 if x["k"] == k][5:6]:
             ck.sample(r if k != "chain" else dict(r, reqs=r["reqs"][:3]))
